@@ -227,6 +227,11 @@ def deadlines(ctx, thorough, do_model=True):
             for jump in range(0, min(total, 25) + 1):
                 clock = [0] * jump + [1000]
                 one(ctx, dict(extra, rep="always", stop_after=10), n, seq, clock=clock, do_model=do_model, name=name, parts=brace[:n])
+            # a clock with fractions of a second: a run that starts at x.75 s with a 2 s limit must not start a test after x+2.75 s
+            # (monitor only: the model's clock counts whole ticks)
+            for frac, step in ((0.75, 0.25), (0.5, 0.5), (0.999, 0.4)):
+                clock = [1000 + frac + step * k for k in range(60)]
+                one(ctx, dict(extra, rep="always", stop_after=2), n, [False] * 101, clock=clock, do_model=False, name=name, parts=brace[:n])
             for _ in range(12 if thorough else 4):
                 clock, t = [], 0
                 for _k in range(40):
@@ -286,6 +291,40 @@ def pow2_cases(ctx, thorough):
         os.chdir(cwd)
 
 
+def option_order(ctx):
+    """--chunk-size=n means min=max=n with a single sweep wherever it stands on the command line: options given before or
+    after it do not undo part of it"""
+    import contextlib
+    import io
+    from lithium.reducer import Lithium
+    d = loaders.scratch() / "c14-cli"
+    d.mkdir(exist_ok=True)
+    (d / "c14_probe_test.py").write_text("def interesting(a, p):\n    return True\n")
+    (d / "tc.txt").write_bytes(b"a\nb\nc\n")
+    cwd = os.getcwd()
+    os.chdir(d)
+    try:
+        others = [["--repeat=always"], ["--repeat=last"], ["--min=2"], ["--max=8"], ["--min=1", "--max=16"], ["--repeat-first-round"]]
+        for extra in others:
+            for argv in (["--chunk-size=4"] + extra, extra + ["--chunk-size=4"]):
+                lith = Lithium()
+                case = dict(argv=argv)
+                try:
+                    with contextlib.redirect_stderr(io.StringIO()):
+                        lith.process_args(argv + ["c14_probe_test.py", "tc.txt"])
+                except (SystemExit, Exception) as exc:  # pylint: disable=broad-except
+                    ctx.fail("cli-raises", f"process_args({argv}) raised {type(exc).__name__}: {exc}", case)
+                    continue
+                ctx.evaluations += 1
+                ctx.bump("option-order")
+                st = lith.strategy
+                got = (st.minimize_min, st.minimize_max, st.minimize_repeat)
+                if got != (4, 4, "never"):
+                    ctx.fail("chunk-size-overridden", f"{argv}: min/max/repeat in force are {got}, --chunk-size=4 means (4, 4, 'never')", case)
+    finally:
+        os.chdir(cwd)
+
+
 def known_finding_cases(ctx):
     # min > max is accepted: blocks of `max` atoms are used while more than `min` atoms remain
     seq = [False] * 50
@@ -317,6 +356,7 @@ def run(ctx) -> int:
     deadlines(ctx, ctx.thorough)
     ctx.exhaustive.append("a clock jump past the limit at every test index (<= 25) of fixed runs of minimize, around, balanced, balanced+move")
     pow2_cases(ctx, ctx.thorough)
+    option_order(ctx)
     ctx.exhaustive.append("is_power_of_two / largest_power_of_two_smaller_than on every integer in [-70, 1100]")
     return common.decide(ctx, proof, RULE, search=search,
                          assumptions=["the block-size clauses are stated for min <= max; min > max is a recorded finding",
